@@ -136,7 +136,7 @@ def gen_surface_actions(ws, gen_dir):
     out = ["// GENERATED by /verif/tools/gen.py from lang/surface/src/textual/parser.lalrpop - do not edit.",
            "#![allow(unused_imports)]", "mod actions {", uses, ""]
     report = {"source": "lang/surface/src/textual/parser.lalrpop", "actions": {}}
-    wanted = [("Integer", "action_integer", None), ("String", "action_string", None),
+    wanted = [("Integer", "action_integer", None), ("Float", "action_float", None), ("String", "action_string", None),
               ("Char", "action_char", None), ("Meta", "action_meta_integer", '"IntLit"')]
     shapes = {}
     for rule, fn, pick in wanted:
@@ -153,7 +153,7 @@ def gen_surface_actions(ws, gen_dir):
     out.append("}\n")
     # call shims with a fixed signature so the fixed harness text does not depend on the rule's symbols
     out.append("use crate::textual::lexer::Tok;\nuse zydeco_syntax::*;\n")
-    for fn, ret in (("action_integer", "IntegerLiteral"), ("action_string", "String"), ("action_char", "char"),
+    for fn, ret in (("action_integer", "IntegerLiteral"), ("action_float", "FloatLiteral"), ("action_string", "String"), ("action_char", "char"),
                     ("action_meta_integer", "Meta")):
         args, seen_pos = [], 0
         # recover param types by order from the generated signature
